@@ -220,6 +220,8 @@ class PredictEval:
             base = self.ev(e.value)
             if e.attr == "shape" and base in (("panel",), PROBA):
                 return ("shape",)
+            if e.attr in ("shape", "size") and base[0] == "argmaxset":
+                return ("setsize", base[1]) if e.attr == "size" else ("shapeof", base)
             if base[0] == "self" and e.attr == "classes_":
                 return ("encoder-classes", base[1])
             return ("opaque", astq.canon(e))
@@ -230,6 +232,13 @@ class PredictEval:
             idx = self.ev(e.slice)
             if base == ("shape",) and idx == ("const", 0):
                 return NROWS
+            if base[0] == "shapeof" and idx == ("const", 0):
+                return ("setsize", base[1][1])
+            if base[0] == "argmaxset":
+                # any element of the arg-max set is an arg-max (a position drawn below its size included)
+                if idx[0] == "const" or idx == ("randpos", base[1]):
+                    return ("argmax", base[1])
+                return ("opaque", "argmaxset[%s]" % show(idx))
             if idx == ROWIDX and self.rows_of(base):
                 return self.rows_of(base)
             if base[0] in ("self", "slice", "encoder-classes") or (base[0] == "opaque" and base[1].startswith("self.")):
@@ -252,6 +261,9 @@ class PredictEval:
                     self.env[g.target.id] = saved
                 return ("map", body)
             return ("opaque", "comprehension over %s" % show(it))
+        if isinstance(e, ast.IfExp):
+            a, b = self.ev(e.body), self.ev(e.orelse)
+            return a if a == b else ("alt", a, b)
         if isinstance(e, ast.Compare) and len(e.ops) == 1:
             return ("cmp", type(e.ops[0]).__name__, self.ev(e.left), self.ev(e.comparators[0]))
         if isinstance(e, ast.Call):
@@ -314,10 +326,24 @@ class PredictEval:
         if isinstance(f, ast.Attribute) and f.attr == "min" and not c.args and not c.keywords and ext is None:
             return ("min", self.ev(f.value))
         if ext in NONZERO_CALLS and len(c.args) == 1:
-            return ("nonzero", self.ev(c.args[0]))
+            inner = self.ev(c.args[0])
+            if inner[0] == "cmp" and inner[1] == "Eq":
+                for x, y in ((inner[2], inner[3]), (inner[3], inner[2])):
+                    if y == ("max", x):
+                        return ("argmaxset", x)
+            return ("nonzero", inner)
+        if ext == "builtins.len" and len(c.args) == 1 and self.ev(c.args[0])[0] == "argmaxset":
+            return ("setsize", self.ev(c.args[0])[1])
+        if isinstance(f, ast.Attribute) and f.attr in ("randint", "integers", "randrange") and ext is None \
+                and 1 <= len(c.args) <= 2 and not c.keywords:
+            hi = self.ev(c.args[-1])
+            if hi[0] == "setsize" and (len(c.args) == 1 or self.ev(c.args[0]) == ("const", 0)):
+                return ("randpos", hi[1])  # a *position* into the arg-max set, not one of its elements
         if isinstance(f, ast.Attribute) and f.attr == "choice" and len(c.args) == 1 and not c.keywords:
             cand = self.ev(c.args[0])
             # uniformly drawn element of {j : row[j] == max(row)} is an arg-max of the row
+            if cand[0] == "argmaxset":
+                return ("argmax", cand[1])
             if cand[0] == "nonzero" and cand[1][0] == "cmp" and cand[1][1] == "Eq":
                 a, b = cand[1][2], cand[1][3]
                 for x, y in ((a, b), (b, a)):
@@ -358,6 +384,12 @@ class PredictEval:
         if v == PROBA:
             return (which, PROBA, ("axis", ax))
         return (which, v)
+
+
+def _alternatives(t):
+    if isinstance(t, tuple) and t and t[0] == "alt":
+        return _alternatives(t[1]) + _alternatives(t[2])
+    return [t]
 
 
 def _names(t):
@@ -577,6 +609,30 @@ def unwrap_parallel(scope, e):
     return e
 
 
+def preallocated(fn, v):
+    """`buf = np.zeros((N, ...))` / `for i, T in enumerate(I): buf[i] = E`  ->  (T, I, E, N)."""
+    inits = astq.assigned_values(fn, v.id)
+    if len(inits) != 1 or not (isinstance(inits[0], ast.Call) and dotted(inits[0].func) in (
+            "np.zeros", "np.empty", "numpy.zeros", "numpy.empty") and inits[0].args):
+        return None
+    shp = inits[0].args[0]
+    n_slabs = shp.elts[0] if isinstance(shp, (ast.Tuple, ast.List)) and shp.elts else shp
+    fills = []
+    for n in astq.walk_no_nested(fn):
+        if isinstance(n, ast.For) and not n.orelse and isinstance(n.iter, ast.Call) and dotted(n.iter.func) == "enumerate" \
+                and len(n.iter.args) == 1 and isinstance(n.target, ast.Tuple) and len(n.target.elts) == 2 \
+                and isinstance(n.target.elts[0], ast.Name):
+            for st in n.body:
+                if isinstance(st, ast.Assign) and len(st.targets) == 1 and isinstance(st.targets[0], ast.Subscript) \
+                        and isinstance(st.targets[0].value, ast.Name) and st.targets[0].value.id == v.id \
+                        and astq.canon(st.targets[0].slice) == n.target.elts[0].id:
+                    fills.append((n, st))
+    if len(fills) != 1 or len(fills[0][0].body) != 1:
+        return None
+    loop, st = fills[0]
+    return loop.target.elts[1], loop.iter.args[0], st.value, n_slabs
+
+
 def as_comprehension(fn, v):
     """(target, iter, elt, ifs) of `[elt for target in iter]`, also when written as
     `acc = []` / `for target in iter: acc.append(elt)` with no other use of acc in between."""
@@ -586,6 +642,9 @@ def as_comprehension(fn, v):
         g = v.generators[0]
         return g.target, g.iter, v.elt, list(g.ifs)
     if isinstance(v, ast.Name):
+        pre = preallocated(fn, v)
+        if pre is not None:
+            return pre[0], pre[1], pre[2], []
         inits = [x for x in astq.assigned_values(fn, v.id)]
         if len(inits) != 1 or not ((isinstance(inits[0], ast.List) and not inits[0].elts) or (
                 isinstance(inits[0], ast.Call) and dotted(inits[0].func) == "list" and not inits[0].args)):
@@ -652,6 +711,16 @@ class Checker:
         # --- shape: map(index(T, argmax(row)))
         if term[0] == "map" and term[1][0] == "index":
             table, sel = term[1][1], term[1][2]
+            alts = _alternatives(sel)
+            if len(alts) > 1 and all(a == ("argmax", ROW) for a in alts):
+                sel = ("argmax", ROW)
+            pos = [a for a in alts if a[0] in ("randpos", "setsize")]
+            if pos:
+                ctx.violation("R1", name + ".predict:select", "on some branch the label index is %s -- a position into the set of "
+                              "arg-max columns, not an element of that set (must be best[k] / rng.choice(best))" % show(pos[0]),
+                              loc, witness={"term": show(term), "history": "tie between columns 1 and 2: the drawn position 0/1 is "
+                                                                          "used as column index"})
+                return self.r1_table(cls, table, loc)
             if sel == ("argmax", ROW):
                 ctx.ok("R1", name + ".predict:select", "each row of the own predict_proba is decoded at an arg-max position", loc)
             elif sel[0] == "argmax" and sel[1][0] == "lossy" and self._lossy_root(sel[1]) == ROW:
@@ -1390,11 +1459,37 @@ class Checker:
                     elif isinstance(v, ast.Name) and as_comprehension(fn2, v) is None:
                         vals = astq.assigned_values(fn2, v.id)
                         v = vals[0] if len(vals) == 1 else v
+                self._collected_name = v if isinstance(v, ast.Name) else None
                 inner = (k2, fn2, as_comprehension(fn2, v) if v is not None else None)
         if inner is None or inner[2] is None:
             ctx.undecided("R2", c + ":members", "member probabilities are not collected by one comprehension / append loop", loc)
             return
         k2, fn2, (g_target, g_iter, elt, g_ifs) = inner
+        pre = preallocated(fn2, self._collected_name) if getattr(self, "_collected_name", None) is not None else None
+        if pre is not None:
+            n_slabs = pre[3]
+            same = isinstance(n_slabs, ast.Call) and dotted(n_slabs.func) == "len" and len(n_slabs.args) == 1 and (
+                astq.canon(n_slabs.args[0]) == astq.canon(g_iter)
+                or (isinstance(n_slabs.args[0], ast.Call) and dotted(n_slabs.args[0].func) == "list"
+                    and n_slabs.args[0].args and astq.canon(n_slabs.args[0].args[0]) == astq.canon(g_iter)))
+            may_skip = None
+            if isinstance(g_iter, ast.Call) and isinstance(g_iter.func, ast.Attribute) and is_self_attr(g_iter.func):
+                hit = self.method(cls, g_iter.func.attr)
+                if hit is not None:
+                    gen_fn = hit[1]
+                    may_skip = any(isinstance(x, (ast.Continue, ast.If)) for x in astq.walk_no_nested(gen_fn)) and any(
+                        isinstance(x, (ast.Yield, ast.YieldFrom)) for x in astq.walk_no_nested(gen_fn))
+            if same:
+                ctx.ok("R2", c + ":slabs", "the stack has one slab per iterated member", self.loc(k2, fn2))
+            elif may_skip:
+                ctx.violation("R2", c + ":slabs", "the member stack is allocated with %s slabs but filled from %s, a generator that "
+                              "skips / adds entries: unfilled zero slabs are averaged in (or the fill runs past the stack), so the "
+                              "divisor of the average is not the number of members accumulated" % (
+                                  astq.canon(n_slabs)[:50], astq.canon(g_iter)[:50]), self.loc(k2, fn2),
+                              witness={"configuration": "an estimator entry 'drop' or an empty column selection"})
+            else:
+                ctx.undecided("R2", c + ":slabs", "slab count %s vs iterated %s not interpretable" % (
+                    astq.canon(n_slabs)[:40], astq.canon(g_iter)[:40]), self.loc(k2, fn2))
         names = [e0.id for e0 in g_target.elts] if isinstance(g_target, ast.Tuple) and all(
             isinstance(e0, ast.Name) for e0 in g_target.elts) else []
         good = None
@@ -1454,6 +1549,51 @@ class Checker:
             ctx.undecided("R3", c, "score is not a single metric call", loc)
             return
         ext = scope.ext(e.func)
+        # hand-written accuracy: [float](np.mean(self.predict(X) == y'))
+        inner = e
+        if ext in ("builtins.float", "numpy.float64") and len(e.args) == 1 and isinstance(e.args[0], ast.Call):
+            inner = e.args[0]
+        if metric == "accuracy" and scope.ext(inner.func) in ("numpy.mean", "numpy.average") and len(inner.args) == 1 \
+                and not inner.keywords and isinstance(inner.args[0], ast.Compare) and len(inner.args[0].ops) == 1 \
+                and isinstance(inner.args[0].ops[0], ast.Eq):
+            cmp_ = inner.args[0]
+            sides = [cmp_.left, cmp_.comparators[0]]
+
+            def is_pred0(x):
+                return isinstance(x, ast.Call) and is_self_attr(x.func, "predict") and len(x.args) == 1 \
+                    and isinstance(x.args[0], ast.Name) and x.args[0].id == pos[0]
+
+            def y_form(x):
+                """'flat' (labels made 1-d first), 'raw' (the y argument as passed), None."""
+                if isinstance(x, ast.Name) and x.id == pos[1]:
+                    return "raw"
+                if isinstance(x, ast.Call):
+                    ex = scope.ext(x.func)
+                    if ex in ("numpy.ravel", "sklearn.utils.validation.column_or_1d", "sklearn.utils.column_or_1d") and x.args \
+                            and y_form(x.args[0]):
+                        return "flat"
+                    if ex in ("numpy.asarray", "numpy.array") and x.args:
+                        return y_form(x.args[0])
+                    if isinstance(x.func, ast.Attribute) and x.func.attr in ("ravel", "flatten") and ex is None \
+                            and y_form(x.func.value):
+                        return "flat"
+                    if isinstance(x.func, ast.Attribute) and x.func.attr == "reshape" and ex is None and len(x.args) == 1 \
+                            and const(x.args[0]) == -1 and y_form(x.func.value):
+                        return "flat"
+                return None
+
+            preds = [x for x in sides if is_pred0(x)]
+            ys = [y_form(x) for x in sides if not is_pred0(x)]
+            if len(preds) == 1 and ys and ys[0] == "flat":
+                ctx.ok("R3", c, "mean(self.predict(X) == flattened y): the accuracy of predict", loc)
+            elif len(preds) == 1 and ys and ys[0] == "raw":
+                ctx.violation("R3", c, "score is mean(self.predict(X) == y) on the unvalidated y: the comparison broadcasts, so for a "
+                              "column vector y of shape (n, 1) it averages an n x n matrix instead of the n matches (accuracy_score "
+                              "flattens such y); not the accuracy of predict for every accepted y", loc,
+                              witness={"input": "y of shape (n, 1), e.g. y.reshape(-1, 1) or a one-column label frame's values"})
+            else:
+                ctx.undecided("R3", c, "hand-written score %s not interpretable" % astq.canon(e)[:80], loc)
+            return
         if ext != want and not (ext or "").endswith("." + want.split(".")[-1]):
             ctx.check(False if ext and ext.startswith("sklearn.metrics") else None, "R3", c, "",
                       "score returns %s, not %s" % (ext or astq.canon(e.func), want), loc)
